@@ -79,7 +79,7 @@ def r1_codec(ctx, nf) -> None:
             for f in fields + (["signature"] if cname == "OpDef" else []):
                 ctx.ok("C10.R1", f"{c.qualname}.{f}", "identity")
             ea = ctor_args(ser).get("extension")
-            ctx.check(ea == attr(("call", ".get_extension", (s,), ()), "name"), "C10.R1", f"{c.qualname}: extension written", c.module.path, m.lineno,
+            ctx.check(ea == nf.expr_nf("self.get_extension().name", c)[0], "C10.R1", f"{c.qualname}: extension written", c.module.path, m.lineno,
                       "the serialized definition must name its owning extension", m, found=show(ea) if ea else "<missing>")
             continue
         if back[0] != "ctor" or back[1] != c.qualname:
@@ -102,7 +102,7 @@ def r1_codec(ctx, nf) -> None:
                       expected="OpDefSig(self.signature.poly_func, self.signature.binary)", found=show(sig)[:300] if sig else "<missing>")
         # the `extension` name written is the owner's
         ea = ctor_args(ser).get("extension")
-        ctx.check(ea == attr(("call", ".get_extension", (s,), ()), "name"), "C10.R1", f"{c.qualname}: extension written", c.module.path, m.lineno,
+        ctx.check(ea == nf.expr_nf("self.get_extension().name", c)[0], "C10.R1", f"{c.qualname}: extension written", c.module.path, m.lineno,
                   "the serialized definition must name its owning extension", m, found=show(ea) if ea else "<missing>")
     # ---- Extension itself: dict-of-definitions idiom
     c = em.classes["Extension"]
